@@ -139,12 +139,12 @@ class SymSched(fakeos.Sched):
         if self.all_ok or (self.max_fail is not None and self.fails >= self.max_fail):
             self.outcome[proc.pid] = ("exited", 0)
             return StatusExited(0)
-        if self.signals and self.g.flag("sg%d" % proc.pid):
-            sig = self.g.fresh_int("sig%d" % proc.pid, 1, 64)
+        if self.signals and self.g.flag("sg%d" % proc.vpid):
+            sig = self.g.fresh_int("sig%d" % proc.vpid, 1, 64)
             self.outcome[proc.pid] = ("signaled", sig)
             self.fails += 1
             return StatusSignaled(sig)
-        rc = self.g.fresh_int("rc%d" % proc.pid, 0, 255)
+        rc = self.g.fresh_int("rc%d" % proc.vpid, 0, 255)
         self.outcome[proc.pid] = ("exited", rc)
         if self.max_fail is not None:
             # the cap needs to know whether this one failed: decide it here
@@ -196,7 +196,7 @@ def output_writer(kernel, proc):
     out = proc.env.get("COND_OUT")
     if out and os.path.isdir(out):
         with open(os.path.join(out, "result.txt"), "w") as fh:
-            fh.write("by %s pid %d\n" % (proc.name, proc.pid))
+            fh.write("by %s pid %d\n" % (proc.name, proc.vpid))
 
 
 def crash_check(g, res, specs):
